@@ -76,6 +76,19 @@ class Report:
     def undecide(self, what):
         self.undecided.append(what)
 
+    def guarded(self, what, fn, *args, **kwargs):
+        """Run one deductive part of a check; if the part itself breaks (a function under contract was
+        renamed or removed, an unexpected shape) the part is undecided - never a crash of the check and
+        never a violation."""
+        try:
+            return fn(*args, **kwargs)
+        except Exception as e:  # noqa: BLE001
+            import traceback
+
+            self.undecide(f"{what}: this part of the check could not run ({type(e).__name__}: {str(e)[:200]})")
+            self.extra.setdefault("part_failures", []).append(dict(part=what, traceback=traceback.format_exc()[-1500:]))
+            return None
+
     # ---- finishing -----------------------------------------------------------------------
     def finish(self, explanation="", rule="", exhaustive=None):
         wall = time.time() - self.t0
